@@ -220,7 +220,14 @@ def interior_range(shape, faces):
 
 @st.composite
 def detector_strategy(draw, shape, steps, name="det0", kinds=("field", "energy", "poynting", "phasor"),
-                      switches=True, exact=(True, False)):
+                      switches=True, exact=(True, False), within=None):
+    """within: optional per-axis (lo, hi) cell range the detector box must stay inside (e.g. outside PML)."""
+    if within is not None:
+        sub = [b - a for a, b in within]
+        d = draw(detector_strategy(sub, steps, name=name, kinds=kinds, switches=switches, exact=exact))
+        d["lo"] = [d["lo"][a] + within[a][0] for a in range(3)]
+        d["hi"] = [d["hi"][a] + within[a][0] for a in range(3)]
+        return d
     kind = draw(st.sampled_from(list(kinds)))
     d = {"type": kind, "name": name, "exact": draw(st.sampled_from(list(exact)))}
     d["switch"] = draw(switch_strategy(steps)) if switches else {}
@@ -593,7 +600,7 @@ def sim_scene_strategy(draw, pml=True, periodic=True, steps=(6, 30), shape=(6, 1
                        material_tiers=("iso", "diag"), lossy=False, grids=("uniform", "rect"),
                        source_kinds=("uniform_plane", "gaussian_plane", "dipole_e", "dipole_m"),
                        detector_kinds=("field", "energy", "poynting", "phasor"), n_objects=(0, 2), exact=(True, False),
-                       require_pml=False, magnetic=True):
+                       require_pml=False, magnetic=True, detectors_outside_pml=False):
     """A random open/closed scene. Plane sources get full transverse extent and sit in the background
     material (objects are kept off plane-source cells so their faces are locally isotropic)."""
     kinds = ["none", "pec", "pmc"] + (["pml"] if pml else []) + (["periodic"] if periodic else [])
@@ -637,7 +644,8 @@ def sim_scene_strategy(draw, pml=True, periodic=True, steps=(6, 30), shape=(6, 1
                                 "material": draw(material_strategy(tiers=material_tiers, lossy=lossy, magnetic=magnetic)),
                                 "order": draw(st.integers(0, 2))})
     for i in range(draw(st.integers(*n_detectors))):
-        spec["detectors"].append(draw(detector_strategy(sh, T, name=f"det{i}", kinds=detector_kinds, exact=exact)))
+        spec["detectors"].append(draw(detector_strategy(sh, T, name=f"det{i}", kinds=detector_kinds, exact=exact,
+                                                        within=interior if detectors_outside_pml else None)))
     return spec
 
 
